@@ -67,7 +67,9 @@ func VerifH_C03_handWrittenChangeDecoder() {
 	u, ok := x.(xml.Unmarshaler)
 	vReach("checked")
 	if !ok {
-		return // decoding is left to encoding/xml's struct-tag reflection
+		// decoding is left to encoding/xml's struct-tag reflection: nothing of osm's to execute
+		vAssert(true, "no-hand-written-change-decoder")
+		return
 	}
 	want := &Change{}
 	var toks []vXMLTok
